@@ -6,6 +6,8 @@ import FM.Model.Config
 import FM.Model.FillText
 import FM.Model.Quotes
 import FM.Model.Ellipses
+import FM.Model.Render
+import FM.Base.Sexp
 /-
   One operation per input line, one canonical answer per output line.
 -/
@@ -122,6 +124,18 @@ def step (line : String) : String :=
           let isWord (c : Char) : Bool := match tbl.find? (·.1 == c) with | some (_, d) => d == '1' | none => false
           encStr ((List.range times).foldl (fun acc _ => ellipses isWord acc) t)
       | _, _ => bad
+  | ["render", sp, defs, doc] =>
+      let spacing : Option Spacing := match sp with
+        | "preserve" => some .preserve | "loose" => some .loose | "tight" => some .tight | _ => none
+      match spacing, parseSexps defs, parseSexps doc with
+      | some spacing, some ds, some bs =>
+        match toDefs ds, toBlocks (doc.length + 2) bs with
+        | some ds, some bs =>
+          -- symbolic line wrapper: the call itself is the result, so arguments are compared too
+          let wrap (t i0 s0 : Str) : Str := Char.ofNat 1 :: i0 ++ Char.ofNat 2 :: s0 ++ Char.ofNat 2 :: t ++ [Char.ofNat 3]
+          encStr (renderDoc { wrap := wrap, spacing := spacing, defs := ds } bs)
+        | _, _ => bad
+      | _, _, _ => bad
   | _ => bad
 
 partial def loop (hin hout : IO.FS.Stream) : IO Unit := do
